@@ -569,11 +569,12 @@ def labels(spec):
 
 
 @st.composite
-def two_conn_spec(draw, max_nodes=7):
+def two_conn_spec(draw, max_nodes=7, start_bias=0):
     """Small selection graph with two connection choices whose connectors are mostly conditional (scenarios without a
     valid connection set for the first or the second choice)"""
     spec = draw(sel_spec(min_nodes=3, max_nodes=max_nodes, max_incompat=0, p_extra=False))
-    spec = draw(add_conns(spec, max_choices=2, min_choices=2, small=True, start_bias=0, allow_grp=draw(st.booleans())))
+    spec = draw(add_conns(spec, max_choices=2, min_choices=2, small=True, start_bias=start_bias,
+                          allow_grp=draw(st.booleans())))
     return spec
 
 
